@@ -192,13 +192,22 @@ pub fn machines(opts: &Opts) -> Vec<crate::machine::MCfg> {
             m.touch_leaves = true;
             m.seeds = vec![0];
             out.push(m);
+            // the full tree (history is the state): hidden state the probe does not know cannot be merged away
+            let two_u: Vec<crate::machine::LeafSpec> = same_shape_leaves(var).into_iter().enumerate().filter(|(i, _)| *i != 1).map(|(_, l)| l).collect();
+            let mut m = base_cfg("flags/N1F2P2K1-unmerged", two_u, vec![OpK::Mul], 4);
+            m.bounds = Bounds { builds: 1, flags: 2, passes: 2, clones: 1, depth: 5, ..Bounds::default() };
+            m.flag_kinds = vec![0, 1, 2, 3];
+            m.touch_leaves = true;
+            m.seeds = vec![0];
+            m.merged = false;
+            out.push(m);
             // views of views, paused and resumed
             let vl = vec![
                 crate::machine::LeafSpec { dims: vec![2, 3], vals: vec![1.0, 2.0 + var as f64, -1.0, 0.5, 3.0, -2.0], tracked: true },
                 crate::machine::LeafSpec { dims: vec![3], vals: vec![2.0, -1.0, 1.0], tracked: true },
             ];
             let mut m = base_cfg("views/N3F2P1", vl, vec![OpK::Reshape(vec![3, 2]), OpK::Reshape(vec![1, 2, 3]), OpK::Mul], 5);
-            m.bounds = Bounds { builds: 3, flags: 2, passes: 1, depth: 6, ..Bounds::default() };
+            m.bounds = Bounds { builds: 3, flags: 1, passes: 1, depth: 5, ..Bounds::default() };
             m.flag_kinds = vec![1, 2, 3];
             m.touch_leaves = true;
             m.seeds = vec![0];
